@@ -35,7 +35,7 @@ def loop(invariant=(), decreases=(), index="_i", types=None, modifies=None):
 class Contract:
     def __init__(self, name, params=None, requires=(), ensures=(), raises=(), returns=None, loops=None, modifies=None,
                  ensures_raise=(), props=(), verify_only=False, site_requires=None, status="proved", cases=None, note="", reify=None,
-                 max_paths=400):
+                 max_paths=400, target=None):
         self.name = name
         self.params = params or {}
         self.requires = [requires] if isinstance(requires, str) else list(requires)
@@ -58,6 +58,7 @@ class Contract:
         self.note = note
         self.reify = reify
         self.max_paths = max_paths
+        self.target = target or name  # the function the contract is about (several contracts may share one)
         self.module_file = None
 
 
@@ -240,7 +241,7 @@ def verify_contract(reg: Registry, c: Contract, opts=None):
         "note": c.note,
     }
     try:
-        fn = reg.resolve_function(c.name)
+        fn = reg.resolve_function(c.target)
         info = FnInfo.of(fn)
     except Exception as e:
         res["status"] = "unresolved"
@@ -371,7 +372,7 @@ def verify_lemma(reg: Registry, l: Lemma, opts=None):
             fr = Frame(None, env, reg.spec_globals(), None)
             for cname, binding, resname in l.uses:
                 c = reg.contracts[cname]
-                fn = reg.resolve_function(cname)
+                fn = reg.resolve_function(c.target)
                 sub = {}
                 for pn, expr in binding.items():
                     sub[pn] = I.eval_clause(expr, fr, 0)
